@@ -24,8 +24,15 @@ import props as P  # noqa: E402
 LEAN = os.path.join(VERIF, "lean")
 HARNESS = os.path.join(VERIF, "harness")
 CACHE = os.path.join(VERIF, ".cache")
-VH = os.path.join(CACHE, "target", "debug", "vh")
-DRIVER = os.path.join(LEAN, ".lake", "build", "bin", "smdriver")
+
+
+def vh_bin(prop):
+    return os.path.join(CACHE, "target", "debug", "vh-" + prop.lower())
+
+
+def driver_bin(prop):
+    return os.path.join(LEAN, ".lake", "build", "bin", "smd_" + prop)
+
 ENV = dict(os.environ, CARGO_NET_OFFLINE="true")
 
 ALLOWED_AXIOMS = {"propext", "Classical.choice", "Quot.sound"}
@@ -158,18 +165,18 @@ def step_grep():
     return hits
 
 
-def step_cargo():
+def step_cargo(prop):
     lock_src = "/repo/Cargo.lock"
     lock_dst = os.path.join(HARNESS, "Cargo.lock")
     with Lock("cargo"):
         if not os.path.exists(lock_dst) and os.path.exists(lock_src):
             import shutil
             shutil.copy(lock_src, lock_dst)
-        rc, out = run(["cargo", "build", "--offline"], cwd=HARNESS, timeout=3000)
+        rc, out = run(["cargo", "build", "--offline", "-p", "vh-" + prop.lower()], cwd=HARNESS, timeout=3000)
         if rc != 0 and "lock file" in out and os.path.exists(lock_src):
             import shutil
             shutil.copy(lock_src, lock_dst)
-            rc, out = run(["cargo", "build", "--offline"], cwd=HARNESS, timeout=3000)
+            rc, out = run(["cargo", "build", "--offline", "-p", "vh-" + prop.lower()], cwd=HARNESS, timeout=3000)
     return rc, out
 
 
@@ -196,7 +203,7 @@ def run_cases(prop, reqs, rundir, tag):
     errors = []
     cfg = P.PROPS[prop]
     try:
-        rc, out = run([VH, "exec", prop], inp=data, timeout=cfg.get("exec_timeout", 1800))
+        rc, out = run([vh_bin(prop), "exec"], inp=data, timeout=cfg.get("exec_timeout", 1800))
     except subprocess.TimeoutExpired:
         rc, out = 124, ""
     impl = out.split("\n")
@@ -205,7 +212,7 @@ def run_cases(prop, reqs, rundir, tag):
     if rc != 0:
         errors.append("harness exec exit %s after %d replies" % (rc, len(impl)))
     try:
-        rc, out = run([DRIVER, prop], inp=data, timeout=cfg.get("exec_timeout", 1800))
+        rc, out = run([driver_bin(prop)], inp=data, timeout=cfg.get("exec_timeout", 1800))
     except subprocess.TimeoutExpired:
         rc, out = 124, ""
     model = out.split("\n")
@@ -288,7 +295,7 @@ def gen_cases(prop, seed, tier, rundir, tag):
     os.makedirs(rundir, exist_ok=True)
     statsp = os.path.join(rundir, tag + ".stats.json")
     cfg = P.PROPS[prop]
-    rc, out = run([VH, "gen", prop, str(seed), tier, statsp], timeout=cfg.get("gen_timeout", 1800))
+    rc, out = run([vh_bin(prop), "gen", str(seed), tier, statsp], timeout=cfg.get("gen_timeout", 1800))
     if rc != 0:
         return None, {}, "harness gen exit %s: %s" % (rc, out[-500:])
     reqs = [l for l in out.split("\n") if l]
@@ -376,7 +383,7 @@ def main():
         signals.append({"what": "extractor", "name": "extract.py", "detail": ex["failures"]["extract.py"]})
 
     # 2. theorems (+ driver)
-    targets = cfg.get("lean_targets", ["SophiaProofs.Props." + prop]) + ["smdriver"]
+    targets = cfg.get("lean_targets", ["SophiaProofs.Props." + prop]) + ["smd_" + prop]
     rc, out = step_lake(targets)
     lake_ok = rc == 0
     failing_theorems = []
@@ -390,9 +397,9 @@ def main():
         signals.append({"what": "proof", "name": "; ".join(sorted(set(failing_theorems)))[:2000],
                         "detail": out[-3000:]})
         # make sure the driver exists if only proofs broke
-        rc2, out2 = step_lake(["smdriver"])
+        rc2, out2 = step_lake(["smd_" + prop])
         if rc2 != 0:
-            signals.append({"what": "model-build", "name": "smdriver", "detail": out2[-2000:]})
+            signals.append({"what": "model-build", "name": "smd_" + prop, "detail": out2[-2000:]})
 
     # 3. axiom audit
     obligations, discharged, native_used, audit_bad = 0, 0, [], []
@@ -427,12 +434,12 @@ def main():
         signals.append({"what": "forbidden-token", "name": "; ".join(hits)[:1500], "detail": ""})
 
     # 4. harness against /repo's working tree
-    rc, out = step_cargo()
+    rc, out = step_cargo(prop)
     cargo_ok = rc == 0
     if not cargo_ok:
         signals.append({"what": "harness-build", "name": "cargo build (harness vs /repo)", "detail": out[-3000:]})
 
-    can_run = cargo_ok and os.path.exists(DRIVER) and os.path.exists(VH)
+    can_run = cargo_ok and os.path.exists(driver_bin(prop)) and os.path.exists(vh_bin(prop))
 
     # --- replay mode
     if replay:
@@ -462,7 +469,7 @@ def main():
         creqs = corpus_cases(prop)
         greqs, stats, gerr = gen_cases(prop, seed, tier, rundir, "main")
         if gerr:
-            signals.append({"what": "harness-gen", "name": "vh gen " + prop, "detail": gerr})
+            signals.append({"what": "harness-gen", "name": "vh-%s gen" % prop.lower(), "detail": gerr})
             greqs = []
         reqs = creqs + greqs
         impl, model, run_errors = run_cases(prop, reqs, rundir, "main")
@@ -514,7 +521,7 @@ def main():
         ms = cfg.get("model_search")
         if ms:
             try:
-                rc_, out_ = run([DRIVER, prop], inp=("\n".join(ms["ask"]) + "\n").encode(), timeout=900)
+                rc_, out_ = run([driver_bin(prop)], inp=("\n".join(ms["ask"]) + "\n").encode(), timeout=900)
                 wreqs = ms["to_requests"](out_.split("\n"))
             except Exception as e:
                 wreqs = []
